@@ -500,7 +500,9 @@ func (tw *tunnelWorld) bound(all []*tConn) time.Duration {
 func (tw *tunnelWorld) endpointUp(p *tProxy) bool {
 	switch p.typ {
 	case ptTCP:
-		return tw.listening(p.publicAddr)
+		// (the port opens one network latency before the registration reply reaches the client; until then the
+		// client does not serve the proxy. The streams of this world start once the registration is complete)
+		return tw.listening(p.publicAddr) && tw.w.FrpLogContains("["+p.name+"] start proxy success")
 	case ptSTCP, ptXTCP:
 		return tw.listening(p.publicAddr) && tw.w.FrpLogContains("["+p.name+"] start proxy success")
 	default:
